@@ -712,6 +712,151 @@ def r03l(rep, F):
     rep.require_count('R03l', 'members written by solve() and accounted for', n, 240)
 
 
+SAMPLING_CALLS = ('sampleUniform', 'sample', 'sampleGoal', 'sampleUniformNear', 'sampleNear', 'sampleGaussian', 'sampleTo', 'sampleNext', 'nextGoal')
+
+
+def r03m(rep, F):
+    rep.rule('R03m', 'every while / do-while loop, at any nesting depth, of a function that receives the termination condition and whose '
+                     'body draws samples (sampleUniform, sample, sampleGoal, sampleNear, nextGoal, ...) consults that condition in its '
+                     'loop condition or body, or is bounded by a counter compared with a compile-time constant (the '
+                     'FIND_VALID_STATE_ATTEMPTS_WITHOUT_TERMINATION_CHECK idiom).  A rejection loop bounded only by run-time '
+                     'quantities (maxSampleCount() is UINT_MAX for a goal region) does not return after the condition fires')
+    n = 0
+    for f in F.functions:
+        if not f.body or not f.file.startswith(facts.SRC):
+            continue
+        pt = [p for p in f.params if 'PlannerTerminationCondition' in (p.get('ty') or '')]
+        if not pt:
+            continue
+        pk = '%s#%d' % (pt[0]['name'], pt[0]['did'])
+        for lp in [x for x in f.walk() if x['k'] in ('WhileStmt', 'DoStmt')]:
+            if not any((c.get('callee') or '').split('::')[-1] in SAMPLING_CALLS for c in f.walk(lp['body'])):
+                continue
+            n += 1
+            cfp = f.fp(lp['cond']) if lp.get('cond') else ''
+            body = any(x['k'] == 'DeclRefExpr' and '%s#%d' % (x.get('name'), x.get('did')) == pk for x in f.walk(lp['body']))
+            const_bound = False
+            for x in (f.walk(lp['cond']) if lp.get('cond') else []):
+                if x['k'] == 'BinaryOperator' and x.get('op') in ('<', '<=', '!='):
+                    l, r = f.strip(x['ch'][0]), f.strip(x['ch'][1])
+                    if l is not None and r is not None and l['k'] == 'DeclRefExpr' and l.get('dk') == 'Local' and \
+                            (r['k'] == 'IntegerLiteral' or (r['k'] == 'DeclRefExpr' and 'ompl::magic::' in (r.get('q') or f.fp(r['id'])))):
+                        const_bound = True
+            ok = pk in cfp or body or const_bound
+            rep.add('R03m', f.name, 'sampling-loop#%d' % len([1 for o in rep.obl if o['rule'] == 'R03m' and o['function'] == f.name]), ok, f.where(lp),
+                    ('consults the termination condition' if (pk in cfp or body) else 'bounded by a constant number of attempts') if ok else
+                    'a sampling loop bounded only by run-time quantities never consults the termination condition %s: once it fires the '
+                    'function keeps drawing samples' % pt[0]['name'])
+    rep.require_count('R03m', 'sampling loops in termination-aware functions', n, 55)
+
+
+def r03n(rep, F, solves):
+    rep.rule('R03n', 'resumed solves re-measure the preserved solution into the reported difference: where solve() reports '
+                     'addSolutionPath(path, approximate, D) with D a local, and D is elsewhere assigned together with a solution-node '
+                     'variable S (the (node, distance) pair of the best motion so far), every goal test applied to S itself -- '
+                     'isSatisfied(S->state, &X), the re-evaluation of the solution kept from an earlier call -- writes X = D.  Otherwise '
+                     'a resumed call reports the old path with an unrelated (infinite) difference and lets any new motion replace it')
+    n = 0
+    for f in solves:
+        Ds = set()
+        for c in f.walk():
+            if (c.get('callee') or '').endswith('ProblemDefinition::addSolutionPath') and len(args(f, c)) >= 3:
+                d = f.strip(args(f, c)[2])
+                if d is not None and d['k'] == 'DeclRefExpr' and d.get('dk') == 'Local':
+                    Ds.add('%s#%d' % (d['name'], d['did']))
+        if not Ds:
+            continue
+        paired = set()
+        for blk in [x for x in f.walk() if x['k'] == 'CompoundStmt']:
+            tg = []
+            for cid in blk['ch']:
+                y = f.nodes.get(cid)
+                if y is not None and y['k'] == 'BinaryOperator' and y.get('op') == '=':
+                    tg.append(y)
+            if any(key(f, y['ch'][0]) in Ds for y in tg):
+                for y in tg:
+                    t = f.strip(y['ch'][0])
+                    if t is not None and '*' in (t.get('ty') or '') and re.search(r'Motion|Vertex', t.get('ty') or ''):
+                        paired.add(f.fp(t['id']))
+        for c in f.walk():
+            if not ((c.get('callee') or '').endswith('::isSatisfied') and 'Goal' in c['callee']) or len(args(f, c)) < 2:
+                continue
+            x = f.strip(args(f, c)[0])
+            if x is None or x['k'] != 'MemberExpr' or not x['ch'] or f.fp(x['ch'][0]) not in paired:
+                continue
+            n += 1
+            outs = {'%s#%d' % (z['name'], z['did']) for z in f.walk(args(f, c)[1]) if z['k'] == 'DeclRefExpr'}
+            ok = bool(outs & Ds)
+            rep.add('R03n', f.name, 'preserved-solution-remeasured', ok, f.where(c),
+                    'the kept solution node is measured into the reported difference' if ok else
+                    'the goal test of the kept solution node %s writes its distance into %s, not into the difference that is reported with '
+                    'the path' % (nofp(f.fp(x['ch'][0])), sorted(nofp(o) for o in outs)))
+    rep.require_count('R03n', 'preserved-solution goal tests', n, 2)
+
+
+HELPER_EXCEPTIONS = {
+    # (helper class, reset method, member): reason read from the code
+    (G_ + 'BITstar::SearchQueue', 'reset', 'isCascadingOfRewiringsEnabled_'): 'configuration flag set by enableCascadingRewirings()',
+    (G_ + 'BITstar::SearchQueue', 'clear', 'isCascadingOfRewiringsEnabled_'): 'configuration flag',
+    (G_ + 'BITstar::SearchQueue', 'clear', 'numEdgesPopped_'): 'clear() empties the queue between batches of one query; the statistics and the solution cost '
+                                                               'belong to the query and are reset by reset()',
+    (G_ + 'BITstar::SearchQueue', 'clear', 'hasExactSolution_'): 'per query, not per batch: reset by reset()',
+    (G_ + 'BITstar::SearchQueue', 'clear', 'solutionCost_'): 'per query, not per batch: reset by reset()',
+    (G_ + 'BITstar::SearchQueue', 'clear', 'inconsistentVertices_'): 'per query, not per batch: reset by reset() (clearInconsistentSet is called by the planner when it needs it)',
+    (G_ + 'aitstar::ImplicitGraph', 'clear', 'sampler_'): 're-allocated by updateStartAndGoalStates() of the next query; holds no query data besides the informed-set definition it is rebuilt with',
+    (G_ + 'aitstar::ImplicitGraph', 'clear', 'numNearestNeighborsCalls_'): 'statistic: only handed out by its getter',
+    (G_ + 'eitstar::ForwardQueue', 'clear', 'front_'): 'cache of the best edge, valid only while cacheQueueLookup_ says so; every modification (including clear) invalidates through the lookup flag',
+    (G_ + 'eitstar::ForwardQueue', 'clear', 'cachedMinEdgeEffort_'): 'cache recomputed by the next peek()/getMinEffortToCome() on a modified queue',
+    (G_ + 'eitstar::RandomGeometricGraph', 'clear', 'currentNumSamples_'): 'index into buffer_, which clear() empties: the guard currentNumSamples_ < buffer_.size() is then false and new states are drawn (clearQuery() zeroes it for multiquery reuse)',
+    (G_ + 'eitstar::RandomGeometricGraph', 'clear', 'numValidSamples_'): 'statistic: only handed out by its getter',
+    (G_ + 'eitstar::RandomGeometricGraph', 'clear', 'numSampledStates_'): 'statistic: only handed out by its getter',
+    (G_ + 'eitstar::RandomGeometricGraph', 'clear', 'numNearestNeighborCalls_'): 'statistic: only handed out by its getter',
+    (G_ + 'eitstar::RandomGeometricGraph', 'clear', 'sampler_'): 're-allocated by updateStartAndGoalStates() of the next query',
+    (G_ + 'eitstar::RandomGeometricGraph', 'clear', 'minPossibleCost_'): 'recomputed by updateStartAndGoalStates() whenever starts or goals change, before it is read',
+    (G_ + 'eitstar::RandomGeometricGraph', 'clear', 'whitelistedStates_'): 'multiquery feature: read only as "is non-empty" under isMultiqueryEnabled_ (lowerBoundEffortToCome); listed, not decided',
+    (G_ + 'eitstar::RandomGeometricGraph', 'clear', 'isPruningEnabled_'): 'configuration flag',
+    (G_ + 'eitstar::RandomGeometricGraph', 'clear', 'isMultiqueryEnabled_'): 'configuration flag',
+    ('ompl::multilevel::BundleSpaceGraphSampler', 'clear', 'segmentBias_'): 'configuration value changed by disableSegmentBias()',
+}
+
+
+def r03o(rep, F):
+    rep.rule('R03o', 'helper classes of the planners (graphs, queues, samplers: any class under planners/ that is not itself a Planner and has '
+                     'a parameterless clear() or reset()): every data member that one of its other member functions assigns, increments or '
+                     'mutates as a container is also written by the clear()/reset() closure; exceptions (configuration, statistics, '
+                     'caches, per-batch vs per-query clears) are frozen with the reason read from the code')
+    planners = F.subclasses(B + 'Planner')
+    byrec = {}
+    for f in F.functions:
+        if f.body:
+            byrec.setdefault(f.record, []).append(f)
+    n = 0
+    for rec, fs in sorted(byrec.items(), key=lambda kv: str(kv[0])):
+        if not rec or rec in planners or '(lambda' in rec or not any('/planners/' in g.file or '/multilevel/' in g.file for g in fs):
+            continue
+        starts = sorted({g.name.split('::')[-1] for g in fs if g.name.split('::')[-1] in ('clear', 'reset') and not g.params})
+        if not starts:
+            continue
+        anc = _ancestors(F, rec)
+        others = [g for g in fs if g.d.get('kind') not in ('ctor', 'dtor') and g.name.split('::')[-1] not in ('clear', 'reset', 'setup') and
+                  not g.name.split('::')[-1].startswith('set')]
+        W = _field_writes(others)
+        for start in starts:
+            C = _field_writes(_class_closure(F, byrec, rec, anc, start))
+            for fld, ws in sorted(W.items()):
+                role = 'helper-reset:' + fld
+                if fld in C:
+                    n += 1
+                    rep.add('R03o', rec + '::' + start, role, True, C[fld][0][3].where(C[fld][0][2]), 'reset by ' + C[fld][0][1] + '()')
+                elif (rec, start, fld) in HELPER_EXCEPTIONS:
+                    rep.undecided('R03o', rec + '::' + start, role, HELPER_EXCEPTIONS[(rec, start, fld)])
+                else:
+                    n += 1
+                    rep.add('R03o', rec + '::' + start, role, False, ws[0][3].where(ws[0][2]),
+                            '%s is modified by %s() but %s() does not touch it: what the previous query put there survives' % (fld, ws[0][1], start))
+    rep.require_count('R03o', 'helper members reset', n, 60)
+
+
 def run(rep):
     units = P.geometric_units() + P.control_units() + P.multilevel_units() + P.base_units()
     F = facts.load_units(units)
@@ -735,6 +880,9 @@ def run(rep):
     r03i(rep, F)
     r03j(rep, F, planner_fns)
     r03l(rep, F)
+    r03o(rep, F)
+    r03m(rep, F)
+    r03n(rep, F, solves)
     # the RRTConnect side-flag invariant decides which branch is reported as the approximate solution of an interrupted solve
     from rules import c01
     c01.r01k(rep, F)
